@@ -5,11 +5,13 @@ import (
 	"context"
 	"crypto/rand"
 	"crypto/rsa"
+	"crypto/sha256"
 	"crypto/tls"
 	"crypto/x509"
 	"crypto/x509/pkix"
 	"encoding/pem"
 	"fmt"
+	"io"
 	"math/big"
 	"net"
 	"os"
@@ -146,9 +148,90 @@ func tlsOpt(cert *tls.Certificate) grpc.DialOption {
 	return grpc.WithTransportCredentials(credentials.NewTLS(cfg))
 }
 
-func credKinds(repo string) []credKind {
+// forgedTicket prepares a caller who holds a certificate for cn from an authority of its OWN and offers the daemon a TLS 1.3
+// session-resumption ticket it obtained from its own endpoint, which encrypts tickets under `key` — a key the caller can
+// compute from public data.  A server whose ticket key is that key would resume the session and believe the certificate in
+// the ticket without verifying it against the configured authority.
+func forgedTicket(cn string, key [32]byte) (grpc.DialOption, bool) {
+	now := time.Now()
+	oca, okey := newCA("Ticket forger's authority")
+	leaf := mint(cn, oca, okey, now.Add(-time.Hour), now.Add(time.Hour))
+	end := mint("signer-test01", oca, okey, now.Add(-time.Hour), now.Add(time.Hour))
+	pool := x509.NewCertPool()
+	pool.AddCert(oca)
+	ecfg := &tls.Config{Certificates: []tls.Certificate{end}, ClientAuth: tls.RequireAndVerifyClientCert, ClientCAs: pool, MinVersion: tls.VersionTLS13, NextProtos: []string{"h2"}}
+	ecfg.SetSessionTicketKeys([][32]byte{key})
+	l, err := tls.Listen("tcp", "127.0.0.1:0", ecfg)
+	if err != nil {
+		return nil, false
+	}
+	defer l.Close()
+	go func() {
+		for {
+			c, err := l.Accept()
+			if err != nil {
+				return
+			}
+			go func(c net.Conn) {
+				defer c.Close()
+				if c.(*tls.Conn).Handshake() != nil {
+					return
+				}
+				_, _ = c.Write([]byte("ok"))
+				_, _ = io.Copy(io.Discard, c)
+			}(c)
+		}
+	}()
+	ccfg := &tls.Config{Certificates: []tls.Certificate{leaf}, InsecureSkipVerify: true, ServerName: "signer-test01", MinVersion: tls.VersionTLS13, //nolint:gosec
+		NextProtos: []string{"h2"}, ClientSessionCache: tls.NewLRUClientSessionCache(4)}
+	c, err := tls.Dial("tcp", l.Addr().String(), ccfg)
+	if err != nil {
+		return nil, false
+	}
+	buf := make([]byte, 2)
+	if _, err := io.ReadFull(c, buf); err != nil { // reading also takes delivery of the ticket
+		c.Close()
+		return nil, false
+	}
+	c.Close()
+	return grpc.WithTransportCredentials(credentials.NewTLS(ccfg)), true
+}
+
+// serverLeaf reads the daemon's server certificate from a handshake (it is sent to anyone who connects).
+func serverLeaf(port uint32) []byte {
+	var leaf []byte
+	c, err := tls.Dial("tcp", fmt.Sprintf("127.0.0.1:%d", port), &tls.Config{InsecureSkipVerify: true, ServerName: "signer-test01", MinVersion: tls.VersionTLS13, //nolint:gosec
+		VerifyPeerCertificate: func(raw [][]byte, _ [][]*x509.Certificate) error {
+			if len(raw) > 0 {
+				leaf = raw[0]
+			}
+			return nil
+		}})
+	if err == nil {
+		c.Close()
+	}
+	return leaf
+}
+
+func credKinds(repo string, port uint32) []credKind {
 	kinds := []credKind{{"plaintext", grpc.WithTransportCredentials(insecure.NewCredentials())}, {"tlsnocert", tlsOpt(nil)}}
 	now := time.Now()
+	// resumption tickets forged under keys computable from public data
+	guess := map[string][32]byte{"zero": {}, "servername": sha256.Sum256([]byte("signer-test01")), "cacert": sha256.Sum256(resources.CACrt)}
+	if leaf := serverLeaf(port); leaf != nil {
+		guess["servercert"] = sha256.Sum256(leaf)
+		guess["servercertpem"] = sha256.Sum256(pem.EncodeToMemory(&pem.Block{Type: "CERTIFICATE", Bytes: leaf}))
+	}
+	if b, _ := pem.Decode(resources.CACrt); b != nil {
+		guess["cacertder"] = sha256.Sum256(b.Bytes)
+	}
+	for _, src := range []string{"zero", "servername", "cacert", "cacertder", "servercert", "servercertpem"} {
+		if k, ok := guess[src]; ok {
+			if opt, ok := forgedTicket("client-test01", k); ok {
+				kinds = append(kinds, credKind{"forgedticket:" + src + ":client-test01", opt})
+			}
+		}
+	}
 	ss := mint("client-test01", nil, nil, now.Add(-time.Hour), now.Add(time.Hour))
 	kinds = append(kinds, credKind{"selfsigned:client-test01", tlsOpt(&ss)})
 	oca, okey := newCA("Other authority")
@@ -294,7 +377,7 @@ func tlsEngine(workdir, repo string) {
 			fmt.Fprintf(out, "UNCOVERED-METHOD %s\n", m)
 		}
 	}
-	for _, ck := range credKinds(repo) {
+	for _, ck := range credKinds(repo, port) {
 		conn, err := grpc.NewClient(fmt.Sprintf("127.0.0.1:%d", port), ck.opt)
 		if err != nil {
 			fmt.Fprintf(out, "%s * * dialerror\n", ck.name)
